@@ -13,6 +13,8 @@
 """
 import itertools
 
+import contextlib
+
 import numpy as np
 
 from mc import env
@@ -251,6 +253,34 @@ def run_repro(case):
         if not (out[0] == out[1] == out[2]):
             which = "back-to-back runs differ" if out[0] != out[1] else "run after the global stream was disturbed differs"
             res.violate("repro:not-reproducible", f"random_state={r}: {which} (cfg={cfg})", cc)
+        # the same seeded run while a process-wide setting is in force that only changes how floating-point events are SIGNALLED or how
+        # arrays are PRINTED: if it completes, it must be the same run (a run that raises under such a setting is outside the property)
+        import warnings
+        for ename in (("errstate-raise", "warnings-error", "printoptions") if r in (1, 2 ** 32 - 1) else ()):
+            with env.quiet(), contextlib.ExitStack() as stk:
+                if ename == "errstate-raise":
+                    stk.enter_context(np.errstate(all="raise"))
+                elif ename == "warnings-error":
+                    stk.enter_context(warnings.catch_warnings())
+                    warnings.simplefilter("error")
+                else:
+                    stk.enter_context(np.printoptions(precision=1, threshold=3, suppress=True))
+                try:
+                    s, ll, _ = make_sampler(c)
+                    s.run(n_total=c.get("n_total", 64), progress=False)
+                    with OwnedRandom(1):
+                        post = s.posterior(return_logw=True)
+                    d_env = digest([_hist_digest(s), [np.asarray(a) for a in post], float(s.evidence()[0])])
+                except (FloatingPointError, Warning):
+                    res.bump(f"raises_under:{ename}")
+                    continue
+                except Exception as e:
+                    res.violate(f"repro:environment:{ename}:raises:{type(e).__name__}", f"random_state={r}: with {ename} in force the run raised {e!r} (cfg={cfg})", dict(cc, env=ename))
+                    continue
+            res.evals += 1
+            res.outcome(("repro-env", tuple(sorted((k, repr(v)) for k, v in cfg.items())), r, ename), nontrivial=True)
+            if d_env != out[0]:
+                res.violate(f"repro:environment:{ename}", f"random_state={r}: the run differs when {ename} is in force in the process (cfg={cfg})", dict(cc, env=ename))
         digs[r] = out[0]
         res.outcome(("repro", tuple(sorted((k, repr(v)) for k, v in cfg.items())), r, out[0]), nontrivial=True)
     if len(digs) >= 2 and len(set(digs.values())) < len(digs):
